@@ -58,6 +58,8 @@ func (h hop) String() string {
 		return fmt.Sprintf("WalkProgrammably+WalkIterProgrammably(t%d)", h.T)
 	case "U":
 		return "NewRoot(unrelated).Add(u)"
+	case "G":
+		return fmt.Sprintf("massive WalkFromRoot + massive dry run (t%d)", h.T)
 	case "H":
 		return fmt.Sprintf("WalkFromRoot(t%d, custom branches, dry run, stopped at node 2)+massive JSON", h.T)
 	}
@@ -287,6 +289,15 @@ func (w *c13World) apply(h hop) {
 		}, append(sut.FmtOpts(fmtTuples[6]), gtree.WithDryRun())...)
 		guardMaybeMassive(true, func() {
 			gtree.OutputFromRoot(&bytes.Buffer{}, w.real[h.T][0], gtree.WithMassive(context.Background()), gtree.WithEncodeJSON(), gtree.WithFileExtensions([]string{"a"}))
+		})
+	case "G":
+		// a massive walk and a massive dry run of the caller's tree: it is the caller's, they only read it
+		guardMaybeMassive(true, func() {
+			gtree.WalkFromRoot(w.real[h.T][0], func(*gtree.WalkerNode) error { return nil }, gtree.WithMassive(context.Background()))
+			old := color.Output
+			color.Output = &bytes.Buffer{}
+			gtree.MkdirFromRoot(w.real[h.T][0], gtree.WithMassive(nil), gtree.WithDryRun(), gtree.WithFileExtensions([]string{"a"}))
+			color.Output = old
 		})
 	case "U":
 		// an unrelated root (and a child) made in between
@@ -678,6 +689,9 @@ func init() {
 				}
 				if (len(hist) == 2 || len(hist) == 4) && t == 0 {
 					rec(append(hist, hop{K: "H", T: t}), s, L)
+				}
+				if (len(hist) == 3 || len(hist) == 4) && t == 0 {
+					rec(append(hist, hop{K: "G", T: t}), s, L)
 				}
 				if !s.held[t] && t == 0 {
 					s.held[t] = true
